@@ -1,7 +1,7 @@
 """C16 — mesh equality is sound, symmetric and independent of the mesh representation.
 
 Correspondence: `a.equals(b)` of the implementation (explicit Mesh, PermutedMesh view, ImageMesh,
-RectilinearMesh, StructuredMesh; every ordered pair of representations) vs the Lean model `Fc.equals`
+RectilinearMesh, StructuredMesh; every ordered pair of representations) vs the Lean model `Fc.C16.equals`
 (FcModel/MeshEqual.lean, FcModel/StructuredEq.lean); the explicit points / connectivity / default
 tolerances the model generates for structured grids vs the ones the objects expose (`c16gen`);
 `CellType.is_compatible_with` vs the regenerated table, exhaustively over all type pairs.
